@@ -237,7 +237,8 @@ void do_blank_lines()
          }
 
          if (  tmp->IsNotNullChunk()
-            && !start->TestFlags(PCF_INCOMPLETE))
+            && !start->TestFlags(PCF_INCOMPLETE)
+            && can_increase_nl(tmp))       // not next to a brace that eats blanks
          {
             if (parent_type == CT_CLASS && options::nl_before_class() > tmp->GetNlCount())
             {
@@ -266,6 +267,7 @@ void do_blank_lines()
          }
 
          if (  tmp->IsNotNullChunk()
+            && can_increase_nl(tmp)        // not next to a brace that eats blanks
             && options::nl_before_namespace() > tmp->GetNlCount())
          {
             log_rule_B("nl_before_namespace");
